@@ -922,6 +922,11 @@ pub fn rebuild_sessions(sid: &str, input: &[u8], out: &mut dyn Write) -> usize {
         ops.push(Op::Build);
         n += run_ops_in(sid, &json!({"g": "rebuild", "mode": "items", "of": sid}), &ops, out, false);
     }
+    {
+        // the section handed over as the value `header.tlvs()` after a peek at its first item
+        let ops = vec![Op::New { vc, afp, bitor: false }, Op::Write(Payload::Slice(ab.clone())), Op::Write(Payload::Tlvs(tb.clone(), 1)), Op::Build];
+        n += run_ops_in(sid, &json!({"g": "rebuild", "mode": "peek", "of": sid}), &ops, out, false);
+    }
     if !matches!(addresses, v2::Addresses::Unspecified) {
         let ops = vec![Op::With { vc, tr: protocol, addr: addresses, bitor: false }, Op::Write(Payload::Tlvs(tb.clone(), 0)), Op::Build];
         n += run_ops_in(sid, &json!({"g": "rebuild", "mode": "addr", "of": sid}), &ops, out, false);
